@@ -115,6 +115,25 @@ def gen(rng, tier):
         if n in (0, 17, 33):
             for f in multi_flips(mac, rng):
                 cs.append(Case("poly1305_verify %s %s %s" % (hx(key), hx(msg), hx(f)), cls="poly1305_verify/multi-flip", expect="err"))
+    # degenerate but CORRECT authenticators: the all-zero key (r = s = 0: every message has the all-zero tag — RFC 8439 A.3 #1), r = 0
+    # with any s, and keys whose pad s is chosen as −h so that the correct tag is sixteen zero / 0xff bytes: accepted, every flip rejected
+    degenerate = [(b"\x00" * 32, rbytes(rng, 33)), (b"\x00" * 32, b""), (b"\x00" * 16 + rbytes(rng, 16), rbytes(rng, 20))]
+    for want in (0, (1 << 128) - 1, 1, 1 << 127):
+        for n in (1, 16, 17, 40):
+            k = bytearray(rbytes(rng, 32)); msg = rbytes(rng, n)
+            k[16:] = b"\x00" * 16
+            h = int.from_bytes(refs.poly1305(bytes(k), msg), "little")
+            k[16:] = ((want - h) % (1 << 128)).to_bytes(16, "little")
+            assert int.from_bytes(refs.poly1305(bytes(k), msg), "little") == want
+            degenerate.append((bytes(k), msg))
+    for key, msg in degenerate:
+        mac = refs.poly1305(key, msg)
+        cut = len(msg) // 2
+        cs.append(Case("poly1305 %s %s" % (hx(key), hx(msg)), cls="poly1305/degenerate-tag"))
+        cs.append(Case("poly1305_verify %s %s %s" % (hx(key), hx(msg), hx(mac)), cls="poly1305_verify/degenerate-good", expect="ok", meta={"why": "the correct authenticator %s was refused" % hx(mac)}))
+        cs.append(Case("poly1305_objverify %s %s %s %s" % (hx(key), hx(mac), hx(msg[:cut]), hx(msg[cut:])), cls="poly1305_objverify/degenerate-good", expect="ok"))
+        for f in flips(mac)[::5]:
+            cs.append(Case("poly1305_verify %s %s %s" % (hx(key), hx(msg), hx(f)), cls="poly1305_verify/degenerate-flip", expect="err"))
     # ---------------- the streaming forms of the MACs are API forms too: every 2-way split of lengths 0..=48, block-aligned 3-way splits
     for op in ("poly1305_inc", "poly1305_obj", "auth_inc", "auth_obj"):
         for n in range(0, 49 if tier == "quick" else 130):
